@@ -219,3 +219,90 @@ def first_target_name(t: ast.expr) -> tp.Optional[str]:
         if isinstance(x, ast.Name):
             return x.id
     return None
+
+
+class Expander:
+    '''Flow-insensitive symbolic expansion of locals: every local Name is replaced by each of its defining expressions
+    (plain assignments; element i of a tuple-unpacked value is written `<value>[i]`; a for-loop target is written
+    `elem(<iterable>)`), recursively, giving the *set* of expressions over parameters, `self` and globals that the
+    expression may denote.  Augmented / comprehension / with-bound names stay opaque.  Used to state what a value is
+    made from without depending on what the intermediate locals are called.'''
+
+    def __init__(self, fn: ast.AST, depth: int = 6, limit: int = 24):
+        self.depth, self.limit = depth, limit
+        self.params = params_of(fn)
+        self.defs: tp.Dict[str, tp.List[ast.expr]] = {}
+        opaque: tp.Set[str] = set()
+        for s in ast.walk(fn):
+            if isinstance(s, ast.Assign):
+                for t in s.targets:
+                    self._bind(t, s.value)
+            elif isinstance(s, ast.AnnAssign) and s.value is not None:
+                self._bind(s.target, s.value)
+            elif isinstance(s, ast.AugAssign) and isinstance(s.target, ast.Name):
+                opaque.add(s.target.id)
+            elif isinstance(s, (ast.For, ast.AsyncFor)):
+                self._bind(s.target, ast.Call(func=ast.Name(id='elem', ctx=ast.Load()), args=[s.iter], keywords=[]))
+            elif isinstance(s, ast.comprehension):
+                for x in ast.walk(s.target):
+                    if isinstance(x, ast.Name):
+                        opaque.add(x.id)
+            elif isinstance(s, (ast.With, ast.AsyncWith)):
+                for it in s.items:
+                    if it.optional_vars is not None:
+                        for x in ast.walk(it.optional_vars):
+                            if isinstance(x, ast.Name):
+                                opaque.add(x.id)
+            elif isinstance(s, ast.NamedExpr) and isinstance(s.target, ast.Name):
+                self._bind(s.target, s.value)
+        for nm in opaque | self.params:
+            self.defs.pop(nm, None)
+        # a definition that mentions its own name is loop-carried: opaque
+        for nm in list(self.defs):
+            keep = [dv for dv in self.defs[nm] if not any(isinstance(x, ast.Name) and x.id == nm for x in ast.walk(dv))]
+            if keep and len(keep) < len(self.defs[nm]) and all(isinstance(dv, ast.Call) for dv in self.defs[nm] if dv not in keep):
+                self.defs[nm] = keep        # x = f(x) re-wraps the same value: the other definitions say where it comes from
+            elif len(keep) < len(self.defs[nm]):
+                self.defs.pop(nm)
+
+    def _bind(self, t: ast.expr, v: ast.expr) -> None:
+        if isinstance(t, ast.Name):
+            self.defs.setdefault(t.id, []).append(v)
+        elif isinstance(t, (ast.Tuple, ast.List)):
+            for i, e in enumerate(t.elts):
+                if isinstance(e, ast.Starred):
+                    continue
+                if isinstance(v, (ast.Tuple, ast.List)) and len(v.elts) == len(t.elts):
+                    self._bind(e, v.elts[i])
+                else:
+                    self._bind(e, ast.Subscript(value=v, slice=ast.Constant(value=i), ctx=ast.Load()))
+
+    def expand(self, e: tp.Optional[ast.expr], depth: tp.Optional[int] = None) -> tp.Set[str]:
+        '''All expansions (normalised text).  Exceeding `limit` alternatives collapses to the unexpanded text.'''
+        if e is None:
+            return {''}
+        d = self.depth if depth is None else depth
+        names = []
+        for n in ast.walk(e):
+            if isinstance(n, ast.Name) and isinstance(n.ctx, ast.Load) and n.id in self.defs and n.id not in names:
+                names.append(n.id)
+        if not names or d <= 0:
+            return {norm(e)}
+        results: tp.Set[str] = set()
+        combos: tp.List[tp.Dict[str, ast.expr]] = [{}]
+        for nm in names:
+            combos = [dict(c, **{nm: dv}) for c in combos for dv in self.defs[nm]]
+            if len(combos) > self.limit:
+                return {norm(e)}
+        for combo in combos:
+            class T(ast.NodeTransformer):
+                def visit_Name(self, node: ast.Name) -> ast.AST:
+                    if isinstance(node.ctx, ast.Load) and node.id in combo:
+                        return copy.deepcopy(combo[node.id])
+                    return node
+            e2 = T().visit(copy.deepcopy(e))
+            ast.fix_missing_locations(e2)
+            results |= self.expand(e2, d - 1)
+            if len(results) > self.limit:
+                return {norm(e)}
+        return results
